@@ -102,11 +102,57 @@ type compCtx struct {
 	file     string
 	hasNBA   bool
 	portConn bool // resolving a port connection / continuous-assign LHS (implicit nets allowed)
+	rr       []sigRange
+	noRange  bool
 }
 
 func (cc *compCtx) read(sg *signal) {
 	if cc != nil && cc.reads != nil {
 		cc.reads[sg] = true
+		if !cc.noRange {
+			cc.rr = append(cc.rr, sigRange{sg: sg, whole: true, hi: sg.w - 1})
+		}
+	}
+}
+
+// readRange records a read of bits [lo,hi] of sg.
+func (cc *compCtx) readRange(sg *signal, lo, hi int64) {
+	if cc != nil && cc.reads != nil {
+		cc.reads[sg] = true
+		if lo < 0 {
+			lo = 0
+		}
+		if hi >= int64(sg.w) {
+			hi = int64(sg.w) - 1
+		}
+		if lo <= hi {
+			cc.rr = append(cc.rr, sigRange{sg: sg, lo: int(lo), hi: int(hi)})
+		}
+	}
+}
+
+// resolveBase resolves the base of a select without recording a whole-signal read for
+// plain vectors; the caller records the selected range.
+func (e *elab) resolveBase(sc *scope, x *Expr, cc *compCtx) *tx {
+	if x.Kind != eIdent || cc == nil {
+		return e.resolve(sc, x, cc)
+	}
+	old := cc.noRange
+	cc.noRange = true
+	t := e.resolve(sc, x, cc)
+	cc.noRange = old
+	return t
+}
+
+// noteSelectRead records the range read by a select on a plain vector base.
+func (cc *compCtx) noteSelectRead(base *tx, constPos bool, lo int64, w int) {
+	if cc == nil || base.k != tkSig {
+		return
+	}
+	if constPos {
+		cc.readRange(base.sig, lo, lo+int64(w)-1)
+	} else {
+		cc.readRange(base.sig, 0, int64(base.sig.w)-1)
 	}
 }
 
@@ -758,7 +804,7 @@ func (e *elab) resolve(sc *scope, x *Expr, cc *compCtx) *tx {
 				return &tx{k: tkMemWord, w: sym.sig.w, sg: sym.sig.signed, sig: sym.sig, a: ix, line: x.Line}
 			}
 		}
-		base := e.resolve(sc, x.A, cc)
+		base := e.resolveBase(sc, x.A, cc)
 		if base.bad {
 			return base
 		}
@@ -767,9 +813,16 @@ func (e *elab) resolve(sc *scope, x *Expr, cc *compCtx) *tx {
 			return e.badTx(x.Line)
 		}
 		ix := e.resolve(sc, x.B, cc)
+		if base.k == tkSig {
+			if ix.k == tkConst && !ix.val.Undef {
+				cc.noteSelectRead(base, true, base.sig.bitPos(ix.val.asInt()), 1)
+			} else {
+				cc.noteSelectRead(base, false, 0, 0)
+			}
+		}
 		return &tx{k: tkBitSel, w: 1, a: base, b: ix, line: x.Line}
 	case ePartSel, eIdxPart:
-		base := e.resolve(sc, x.A, cc)
+		base := e.resolveBase(sc, x.A, cc)
 		if base.bad {
 			return base
 		}
@@ -804,6 +857,7 @@ func (e *elab) resolve(sc *scope, x *Expr, cc *compCtx) *tx {
 				e.errorf(file, x.Line, ClassUnsupported, "", "part-select is too large")
 				return e.badTx(x.Line)
 			}
+			cc.noteSelectRead(base, true, pl, int(w))
 			return &tx{k: tkPartSel, w: int(w), a: base, lo: int(pl), n: int(w), line: x.Line}
 		}
 		wv, ok := e.constInt(sc, x.C)
@@ -812,6 +866,7 @@ func (e *elab) resolve(sc *scope, x *Expr, cc *compCtx) *tx {
 			return e.badTx(x.Line)
 		}
 		ix := e.resolve(sc, x.B, cc)
+		cc.noteSelectRead(base, false, 0, 0)
 		return &tx{k: tkIdxPart, w: int(wv), a: base, b: ix, n: int(wv), up: x.Op == "+:", line: x.Line}
 	case eUnary:
 		a := e.resolve(sc, x.A, cc)
